@@ -1332,6 +1332,13 @@ class Lib(object):
 
     def slice(self, engine, st, o, lo, hi, step, node):
         if step is not None:
+            src = o.vl if isinstance(o, VarArgs) else o
+            if isinstance(src, SVL) and not is_sym(step):
+                # a stepped slice of an item list: an uninterpreted list (nothing is known about it but what it was made from)
+                self.used.add("x[a:b:step] of an item list: an uninterpreted function of the list and the bounds")
+                f = z3.Function("stepped_slice", VL, Val, Val, Val, VL)
+                yield st, SVL(f(src.z, to_val(lo), to_val(hi), to_val(step)))
+                return
             raise Unsupported("slice step")
         if not is_sym(o) and not is_sym(lo) and not is_sym(hi):
             yield st, o[lo:hi]
